@@ -44,6 +44,7 @@ type vgStep struct {
 	FailDial int    `json:"faildial"` // k-th dial of this operation fails (0 = none)
 	E        string `json:"e"`
 	Name     string `json:"name"` // rpc: MultiEndpoint name in the context ("" = none)
+	Stream   bool   `json:"stream"` // rpc: issued as a stream (NewStream) instead of a unary call (Invoke)
 	N        int    `json:"n"`    // tick: virtual milliseconds
 	// conc: RPCs and one reconfiguration run as goroutines, stepped gate to gate (gme.mu) in the order given by Sched
 	Procs []vgStep `json:"procs"`
@@ -81,6 +82,7 @@ type vgEvent struct {
 	FailDial int       `json:"faildial"`
 	E        string    `json:"e"`
 	Name     string    `json:"name"`
+	Stream   bool      `json:"stream"`
 	N        int       `json:"n"`
 	R        int       `json:"r"`
 	D        int       `json:"d"`
@@ -384,6 +386,38 @@ func (h *vgHarness) settle() bool {
 	return false
 }
 
+// vgCall issues one RPC through the GCPMultiEndpoint, unary (Invoke) or as a bidirectional stream (NewStream), and
+// returns the name of the server that answered (header "srv").
+func vgCall(g *GCPMultiEndpoint, ctx context.Context, stream bool) (string, error) {
+	var md metadata.MD
+	if !stream {
+		if err := g.Invoke(ctx, "/v/Echo", &emptypb.Empty{}, &emptypb.Empty{}, grpc.Header(&md)); err != nil {
+			return "", err
+		}
+	} else {
+		cs, err := g.NewStream(ctx, &grpc.StreamDesc{StreamName: "Echo", ClientStreams: true, ServerStreams: true}, "/v/Echo")
+		if err != nil {
+			return "", err
+		}
+		if err := cs.SendMsg(&emptypb.Empty{}); err != nil {
+			return "", err
+		}
+		if err := cs.CloseSend(); err != nil {
+			return "", err
+		}
+		if md, err = cs.Header(); err != nil {
+			return "", err
+		}
+		if err := cs.RecvMsg(&emptypb.Empty{}); err != nil {
+			return "", err
+		}
+	}
+	if v := md.Get("srv"); len(v) > 0 {
+		return v[0], nil
+	}
+	return "", nil
+}
+
 func vgGuard(f func() string) (res, msg string) {
 	done := make(chan struct{})
 	go func() {
@@ -418,7 +452,7 @@ func (h *vgHarness) goroutinesAboveBaseline() int {
 }
 
 func (h *vgHarness) exec(i int, st vgStep) vgEvent {
-	ev := vgEvent{I: i, Op: st.Op, Mes: st.Mes, Def: st.Def, FailDial: st.FailDial, E: st.E, Name: st.Name, N: st.N, R: h.r, D: h.d, Res: "OK"}
+	ev := vgEvent{I: i, Op: st.Op, Mes: st.Mes, Def: st.Def, FailDial: st.FailDial, E: st.E, Name: st.Name, Stream: st.Stream, N: st.N, R: h.r, D: h.d, Res: "OK"}
 	if ev.Mes == nil {
 		ev.Mes = []vgME{}
 	}
@@ -486,15 +520,12 @@ func (h *vgHarness) exec(i int, st vgStep) vgEvent {
 			if st.Name != "" {
 				ctx = NewMEContext(ctx, st.Name)
 			}
-			var md metadata.MD
-			err := h.gme.Invoke(ctx, "/v/Echo", &emptypb.Empty{}, &emptypb.Empty{}, grpc.Header(&md))
+			srv, err := vgCall(h.gme, ctx, st.Stream)
 			if err != nil {
 				ev.Msg = err.Error()
 				return "ERR"
 			}
-			if v := md.Get("srv"); len(v) > 0 {
-				ev.Srv = v[0]
-			}
+			ev.Srv = srv
 			return "OK"
 		})
 	case "conc":
@@ -651,7 +682,7 @@ func (h *vgHarness) execConc(st vgStep, ev *vgEvent) {
 	for k, ps := range st.Procs {
 		ps := ps
 		k := k
-		subs[k] = vgEvent{I: ev.I, Op: ps.Op, Mes: ps.Mes, Def: ps.Def, FailDial: ps.FailDial, E: ps.E, Name: ps.Name, R: h.r, D: h.d, Res: "OK"}
+		subs[k] = vgEvent{I: ev.I, Op: ps.Op, Mes: ps.Mes, Def: ps.Def, FailDial: ps.FailDial, E: ps.E, Name: ps.Name, Stream: ps.Stream, R: h.r, D: h.d, Res: "OK"}
 		if subs[k].Mes == nil {
 			subs[k].Mes = []vgME{}
 		}
@@ -664,13 +695,9 @@ func (h *vgHarness) execConc(st vgStep, ev *vgEvent) {
 				if ps.Name != "" {
 					ctx = NewMEContext(ctx, ps.Name)
 				}
-				var md metadata.MD
-				if err := h.gme.Invoke(ctx, "/v/Echo", &emptypb.Empty{}, &emptypb.Empty{}, grpc.Header(&md)); err != nil {
+				srv, err := vgCall(h.gme, ctx, ps.Stream)
+				if err != nil {
 					return vRes{res: "ERR", msg: err.Error()}
-				}
-				srv := ""
-				if v := md.Get("srv"); len(v) > 0 {
-					srv = v[0]
 				}
 				return vRes{res: "OK", msg: srv}
 			}
